@@ -415,6 +415,13 @@ func closure(tree interface{}) []Mut {
 		// wrong-typed siblings and shape changes that keep the content
 		switch t := cur.(type) {
 		case string:
+			// a URL-bearing member: the sender can point it at an endpoint of its own
+			if strings.HasPrefix(t, "http://") || strings.HasPrefix(t, "https://") {
+				for _, k := range []string{"hang", "flood", "redirect"} {
+					add(p, "url-"+k, "@HOSTILE:"+k+"@")
+				}
+			}
+
 			add(p, "str->arr", []interface{}{t})
 			add(p, "str->obj", map[string]interface{}{"id": t})
 
@@ -455,6 +462,46 @@ func closure(tree interface{}) []Mut {
 				add(p, "arr-nested", []interface{}{t})
 			}
 		case map[string]interface{}:
+			// an attachment (an object with a data object): content that is only referenced, at a hostile location
+			if d, ok := t["data"].(map[string]interface{}); ok {
+				for _, k := range hostileKinds {
+					c := make(map[string]interface{}, len(t))
+					for kk, vv := range t {
+						c[kk] = vv
+					}
+
+					nd := map[string]interface{}{"links": []interface{}{"@HOSTILE:" + k + "@"}}
+					if sha, has := d["sha256"]; has {
+						nd["sha256"] = sha
+					}
+
+					c["data"] = nd
+					add(p, "attach-links-"+k, c)
+				}
+			}
+
+			// DIDComm V1 / V2 member aliases (@id / id, @type / type): the plain name keeps the value while the
+			// decorated one changes type
+			for _, k := range sortedKeys(t) {
+				if !strings.HasPrefix(k, "@") || len(k) < 2 {
+					continue
+				}
+
+				for _, r := range []struct {
+					n string
+					v interface{}
+				}{{"null", nil}, {"0", json.Number("0")}, {"arr", []interface{}{}}, {"obj", map[string]interface{}{}}} {
+					c := make(map[string]interface{}, len(t)+1)
+					for kk, vv := range t {
+						c[kk] = vv
+					}
+
+					c[k[1:]] = t[k]
+					c[k] = r.v
+					add(p, "alias"+k+"-"+r.n, c)
+				}
+			}
+
 			add(p, "obj->arr", []interface{}{t})
 
 			b, _ := json.Marshal(implode(t)) //nolint:errcheck
@@ -538,4 +585,15 @@ func truncations(b []byte, max int) [][]byte {
 	}
 
 	return out
+}
+
+func sortedKeys(m map[string]interface{}) []string {
+	ks := make([]string, 0, len(m))
+	for k := range m {
+		ks = append(ks, k)
+	}
+
+	sort.Strings(ks)
+
+	return ks
 }
